@@ -335,10 +335,51 @@ func rulePrunesImpl(scopeFiles func(file string) bool, ruleID string, min int, p
 					}
 					return n
 				}
+				// pruneDecisions: the branch points, reachable from a block without passing a complete descent, at which one
+				// side can still descend and another side only leaves without descending. This is what an audit of a prune
+				// is about — "under THIS test the children are skipped" — and it does not change when the pruning side is
+				// split into several returns, when the test is inverted, or when the branches are swapped.
+				canDescend := func(b *cfg.Block) bool {
+					if desc[b] {
+						return true
+					}
+					for r := range fc.ReachableBlocks(b, nil, nil) {
+						if desc[r] {
+							return true
+						}
+					}
+					return false
+				}
+				pruneDecisions := func(from *cfg.Block) int {
+					if from == nil || desc[from] {
+						return 0
+					}
+					n := 0
+					for b := range fc.ReachableBlocks(from, nil, desc) {
+						if len(b.Succs) < 2 {
+							continue
+						}
+						some, none := false, false
+						for _, sc := range b.Succs {
+							if canDescend(sc) {
+								some = true
+							} else if exitsWithoutDescent(sc) > 0 {
+								none = true
+							}
+						}
+						if some && none {
+							n++
+						}
+					}
+					return n
+				}
 				lastExits := 0
+				lastDescends := true
 				exitReachable := func(from *cfg.Block) bool {
-					lastExits = exitsWithoutDescent(from)
-					return lastExits > 0
+					n := exitsWithoutDescent(from)
+					lastExits = pruneDecisions(from)
+					lastDescends = from != nil && canDescend(from)
+					return n > 0
 				}
 				// the type switch on the node parameter directly in the literal's body
 				var sw *typeSwitchInfo
@@ -369,8 +410,12 @@ func rulePrunesImpl(scopeFiles func(file string) bool, ruleID string, min int, p
 					if r, ok := auditedPrunes[key]; ok {
 						// the audit was given for the pruning exits that existed then: a further way out without
 						// descending is not covered by it
+						if max, pinned := pinnedPruneExits()[key]; pinned && max > 0 && !lastDescends {
+							c.Bad(ruleID, key, pos.Pos(), fmt.Sprintf("the audited prune (%s) was a conditional one: the children were visited unless its test held; now no path of this case visits the children of this node kind", r))
+							return
+						}
 						if max, pinned := pinnedPruneExits()[key]; pinned && max > 0 && lastExits > max {
-							c.Bad(ruleID, key, pos.Pos(), fmt.Sprintf("the audited prune (%s) covers %d way(s) out of this case without visiting the children; there are now %d: on the new one the children of this node kind are skipped", r, max, lastExits))
+							c.Bad(ruleID, key, pos.Pos(), fmt.Sprintf("the audited prune (%s) covers %d test(s) that decide between visiting the children and leaving without them; there are now %d: under the new one the children of this node kind are skipped", r, max, lastExits))
 							return
 						}
 						c.Tables[ruleID+"_prune_exits/"+key] = lastExits
